@@ -868,7 +868,16 @@ def L_unique(ex, st, node, a, *r, **kw):
     n = zint(a.shape[0])
     cnt = fresh("nunique", z3.IntSort())
     st.assume(z3.And(cnt >= 0, cnt <= n, z3.Implies(n >= 1, cnt >= 1)), tag="lib:unique")
-    return ex.new_array(st, (cnt,), a.dtype, None, "unique")
+    res = ex.new_array(st, (cnt,), a.dtype, None, "unique")
+    from . import spec as _spec
+    if ex.c.options.get("unique_counts") and "cnteq" in _spec.SPECFNS and a.dtype in ("f8", "f4"):
+        # counting fact of the library contract (pigeonhole): as many distinct values as cells => every value occurs exactly once
+        ex.ctx.assumed.add("numpy.unique: when it returns as many values as the input has cells, each returned value occurs exactly once in the input (pigeonhole; assumed)")
+        f = _spec.specfn_decl(ex, _spec.SPECFNS["cnteq"])
+        i = z3.Int("k!uq")
+        src = _spec.materialise(ex, st, st.heap[a.oid])
+        st.assume(z3.Implies(cnt == n, z3.ForAll([i], z3.Implies(z3.And(i >= 0, i < cnt), f(src, sel(st.heap[res.oid], i), n) == 1))), tag="lib:unique")
+    return res
 
 
 def L_minmax(which):
